@@ -65,6 +65,7 @@ func cborArg(b []byte) (arg uint64, indef bool, rest []byte, err error) {
 }
 
 func cborItem(b []byte, depth int) (Val, []byte, error) {
+	beat()
 	if len(b) == 0 {
 		return Val{}, nil, errTrunc
 	}
@@ -238,6 +239,7 @@ func ubString(b []byte) (string, []byte, error) {
 
 // ubValue decodes the payload of a value whose marker m has been consumed.
 func ubValue(m byte, b []byte, depth int) (Val, []byte, error) {
+	beat()
 	if depth > 1<<21 {
 		return Val{}, nil, errors.New("reference reader: nesting too deep")
 	}
